@@ -40,6 +40,7 @@ EXPLANATION = (
   ' (FIN-haspx) each has_px() over a style value with several lengths (extent, origin, padding, position), evaluated with exactly one length in px and with none, reports px exactly when some length is in px;'
   ' (FIN-wholeframes) as in C12: frame syntaxes are written from the whole number of complete frames, so no frame field reaches the frame rate;'
   ' (AGREE-framerate) ttp:frameRate is written for every time expression syntax under which to_time_format uses the frame rate;'
+  + common.SHARED_CLAUSES['color'] + common.SHARED_CLAUSES['text']
 )
 RULE_TEXT = "per element kind, per style property, per Enum member, per special-value access, per time syntax sample"
 UNDECIDED = ["snapshot equality after re-reading", "numeric precision of written lengths (:g formatting)", "font-family quoting round trip", "times move by less than one unit and never change order"]
@@ -789,6 +790,7 @@ def check_has_px(ctx):
 
 
 def run(ctx):
+  common.check_shared_helpers(ctx, color=True, text=True)
   ix = ctx.ix
   check_writer_dispatch(ctx)
   check_props(ctx)
